@@ -351,6 +351,60 @@ class Site:
         return resp
 
 
+def concurrent_requests(site: "Site", jobs: typing.List[typing.Tuple[bytes, typing.Any]], nthreads: int = 8,
+                        timeout: float = 30.0) -> typing.List[bytes]:
+    """Run the jobs (request bytes, tls) on `nthreads` threads at once, each through the
+    real process_request_thread on its own socketpair.  Returns the reply bytes in job
+    order.  Escaping exceptions accumulate in site._escaped, log lines in site._log
+    (neither is cleared here)."""
+    results: typing.List[typing.Optional[bytes]] = [None] * len(jobs)
+    nxt = [0]
+    lock = threading.Lock()
+
+    def one(i: int) -> None:
+        data, tls = jobs[i]
+        s_srv, s_cli = socket.socketpair()
+        s_cli.settimeout(timeout)
+        chunks: typing.List[bytes] = []
+
+        def client() -> None:
+            try:
+                s_cli.sendall(data)
+                s_cli.shutdown(socket.SHUT_WR)
+                while True:
+                    b = s_cli.recv(65536)
+                    if not b:
+                        break
+                    chunks.append(b)
+            except OSError:
+                pass
+            finally:
+                s_cli.close()
+
+        t = threading.Thread(target=client, daemon=True)
+        t.start()
+        srv: typing.Any = MockTLSSocket(s_srv) if tls in (True, "mock") else s_srv
+        site.server.process_request_thread(srv, CLIENT_ADDR)
+        t.join(timeout + 5)
+        results[i] = b"".join(chunks)
+
+    def worker() -> None:
+        while True:
+            with lock:
+                i = nxt[0]
+                nxt[0] += 1
+            if i >= len(jobs):
+                return
+            one(i)
+
+    threads = [threading.Thread(target=worker, daemon=True) for _ in range(nthreads)]
+    for t in threads:
+        t.start()
+    for t in threads:
+        t.join(timeout * 4)
+    return [r if r is not None else b"<no reply>" for r in results]
+
+
 def clean_server_files(root: str) -> int:
     """Remove every file the server writes into the tree it serves."""
     n = 0
